@@ -13,9 +13,10 @@ RULE = ("each case = case-sensitive or case-insensitive provider and a sequence 
         "3 names x 3 levels x 5 ids (so id collisions, overwrites, type changes, ancestor/descendant renames all occur; on case-insensitive providers paths are addressed in mixed case). After EVERY call: "
         "the tree reachable from the root has no cycle, child/parent links agree, no id is held by two nodes, every id in the id view is reachable from the root, get_path(get_oid(p)) == p and "
         "get_oid(get_path(i)) == i for everything cached; and the call's own postcondition against a shadow of the previous state (created/renamed node is where it should be with its id and type, a "
-        "renamed folder carried its whole subtree, a deleted or type-replaced folder's descendants' ids are all forgotten). Any exception other than the documented ValueError for renaming the root is a "
+        "renamed folder carried its whole subtree, a deleted or type-replaced folder's descendants' ids are all forgotten) and - the dictionary model's metadata half - a call changes the metadata of no node but the one it addresses (nodes compared by identity before/after, so moves do not matter), the addressed node holds what the documentation says (update: merged when keep, replaced otherwise, exactly the given dict for a node the call made; set_metadata: the given dict) and a node made without metadata starts empty; update and set_metadata carry random metadata over a two-key template. Any exception other than the documented ValueError for renaming the root is a "
         "violation. distinct = op-kind sequence with names abstracted; non-trivial = >=2 nodes existed when the last call ran.")
-ASSUMPTIONS = ["a folder is never renamed into its own subtree (not a legal call)", "ids are strings (the root id's type)", "no dict model of the eviction rules: the oracle is structural plus per-call postconditions"]
+ASSUMPTIONS = ["a folder is never renamed into its own subtree (not a legal call)", "ids are strings (the root id's type)", "no dict model of the eviction rules: the oracle is structural plus per-call postconditions",
+               "not judged: the metadata of a node whose id the same update call changes (documented as 're-made'; what it should hold is not stated), nor metadata after a call that hands a node an id held by its own relative (KF-CACHE-ID-OF-RELATIVE)"]
 LEVEL_TEXT = "seeded history search; claimed at exploration level with the caveat that nothing but the history quantifier is exercised (stated in DESIGN section 5/C19)"
 LEVEL_NOTE = "trusted: the structural walk (props/c19.py) reads the cache's private tables (_root, _oid_to_node, Node.children) because the property is about exactly those"
 REAL = ["HierarchicalCache", "Provider.normalize_path / split of MockProvider (path helpers)"]
@@ -148,10 +149,13 @@ def _apply(cache, prov, op, before, ids_before):
         if cache.get_oid(path) != oid or n(cache.get_path(oid) or "") != n(path):
             return "set_oid(%r,%r): get_oid=%r get_path=%r" % (path, oid, cache.get_oid(path), cache.get_path(oid))
     elif k == "update":
-        _, path, typ, oid = op
+        path, typ, oid = op[1:4]
         t = DIRECTORY if typ == "d" else FILE
         old = before.get(n(path))
-        cache.update(path, t, oid=oid)
+        if len(op) > 4:
+            cache.update(path, t, oid=oid, metadata=dict(op[4]) if op[4] else None, keep=op[5])
+        else:
+            cache.update(path, t, oid=oid)
         if cache.get_type(path=path) != t:
             return "update(%r,%s,%r): type is %r" % (path, typ, oid, cache.get_type(path=path))
         if oid is not None and cache.get_oid(path) != oid:
@@ -163,14 +167,69 @@ def _apply(cache, prov, op, before, ids_before):
                 if p != n(path) and _under(p, n(path)) and i2 is not None and i2 != oid and cache.get_type(oid=i2) is not None:
                     return "update(%r -> file): a folder was replaced but get_type(oid=%r) still answers for its descendant %r" % (path, i2, p)
     elif k == "set_metadata":
-        _, path = op
-        cache.set_metadata({}, path=path)
+        path = op[1]
+        cache.set_metadata(dict(op[2]) if len(op) > 2 and op[2] else {}, path=path)
+    return None
+
+
+META_TEMPLATE = {"size": int, "hash": str}
+
+
+def _walk_nodes(cache):
+    out, stack = [], [cache._root]
+    while stack:
+        nd = stack.pop()
+        out.append(nd)
+        stack.extend(nd.children.values())
+    return out
+
+
+def _meta_before(cache, op):
+    """strong references to every node plus a copy of its metadata (the references keep id() from being reused during the call)"""
+    target = cache._get_node(path=op[1]) if op[0] in ("update", "set_metadata") else None
+    return [(nd, dict(nd.metadata)) for nd in _walk_nodes(cache)], target
+
+
+def _meta_check(cache, prov, op, before, mb):
+    """the dictionary model's metadata half: a call changes the metadata of no node but the one it addresses, that one holds what the call's
+    documentation says (merged when keep, replaced otherwise, exactly the given dict for a node the call made), and a node made without
+    metadata starts empty.  Not judged: the metadata of a node whose id the same update call changes (the documentation says the node is
+    re-made; what its metadata should be is not stated)."""
+    nodes_before, target = mb
+    alive = {id(nd) for nd in _walk_nodes(cache)}
+    for nd, m in nodes_before:
+        if id(nd) in alive and nd is not target and nd.metadata != m:
+            return "%s: metadata of %r, a node the call did not address, changed from %r to %r" % (op, nd.full_path() or "/", m, nd.metadata)
+    k = op[0]
+    n = lambda p: _norm(prov, p)       # noqa: E731
+    if k in ("create", "mkdir") and n(op[1]) not in before:
+        got = cache.get_metadata(path=op[1])
+        if got is not None and got != {}:
+            return "%s: a node made without metadata holds %r" % (op, got)
+    elif k == "set_metadata" and target is not None:
+        want = dict(op[2]) if len(op) > 2 and op[2] else {}
+        if cache.get_metadata(path=op[1]) != want:
+            return "%s: get_metadata says %r" % (op, cache.get_metadata(path=op[1]))
+    elif k == "update":
+        typ, oid = op[2], op[3]
+        m = dict(op[4]) if len(op) > 4 and op[4] else {}
+        keep = op[5] if len(op) > 5 else True
+        t = DIRECTORY if typ == "d" else FILE
+        old = [mm for nd, mm in nodes_before if nd is target]
+        if target is None or target.type != t or not old:
+            want = m
+        elif oid is None or target.oid == oid or old and before.get(n(op[1]), (None, None))[1] is None:
+            want = dict(old[0], **m) if keep else m
+        else:
+            return None
+        if cache.get_metadata(path=op[1]) != want:
+            return "%s: get_metadata says %r, the call's documentation implies %r" % (op, cache.get_metadata(path=op[1]), want)
     return None
 
 
 def _run(case):
     prov = _provider(case["cfg"]["case_sensitive"])
-    cache = HierarchicalCache(prov, "root")
+    cache = HierarchicalCache(prov, "root", metadata_template=META_TEMPLATE)
     nodes = 0
     for i, op in enumerate(case["plan"]):
         try:
@@ -190,6 +249,7 @@ def _run(case):
             target = _norm(prov, op[1])
             if holder != "/" and holder != target and (_under(target, holder) or _under(holder, target)):
                 mech = "id-held-by-relative"
+        mb = _meta_before(cache, op)
         try:
             msg = _apply(cache, prov, op, before, ids_before)
         except ValueError as e:
@@ -200,6 +260,11 @@ def _run(case):
             return ("exception", "op #%d %s raised %s: %s" % (i, op, type(e).__name__, str(e)[:120]), mech), nodes
         if msg:
             return ("postcondition", "op #%d: %s" % (i, msg), mech), nodes
+        if mech is None:
+            msg = _meta_check(cache, prov, op, before, mb)
+            if msg:
+                return ("metadata", "op #%d: %s" % (i, msg), mech), nodes
+        del mb
         s = _structural(cache, prov)
         if s:
             return ("structure", "after op #%d %s: %s" % (i, op, s), mech), nodes
@@ -223,6 +288,15 @@ def _path(rng, ci):
     return "/" + "/".join(parts)
 
 
+def _meta(rng):
+    m = {}
+    if rng.random() < 0.6:
+        m["size"] = rng.randint(0, 3)
+    if rng.random() < 0.6:
+        m["hash"] = rng.choice("xyz")
+    return m
+
+
 def generate(rng, tier, index):
     cs = rng.random() < 0.5
     ci = not cs
@@ -240,9 +314,9 @@ def generate(rng, tier, index):
         elif k == "set_oid":
             ops.append([k, _path(rng, ci), rng.choice(IDS), rng.choice("fd")])
         elif k == "update":
-            ops.append([k, _path(rng, ci), rng.choice("fd"), rng.choice(IDS + (None,))])
+            ops.append([k, _path(rng, ci), rng.choice("fd"), rng.choice(IDS + (None,)), _meta(rng) if rng.random() < 0.6 else None, rng.random() < 0.6])
         else:
-            ops.append([k, _path(rng, ci)])
+            ops.append([k, _path(rng, ci), _meta(rng)])
     return _evaluate({"prop": ID, "cfg": {"case_sensitive": cs}, "plan": ops, "family": "cs" if cs else "ci"})
 
 
